@@ -71,6 +71,8 @@ type bD struct {
 	// mode 2 (abi message bodies): generated alone with typePrefix=goName and skipMagic
 	msg    bool
 	goName string
+	// text of the result type when it differs from the Go name (`= Foo 5` is generated as Foo5)
+	resText string
 }
 
 type tlbSchema struct {
@@ -80,6 +82,8 @@ type tlbSchema struct {
 	// harness reads ExpType as (nil: no reading is offered)
 	raw string
 	exp *bD
+	// order of the constructor lines of the non-message declarations: (declaration, constructor); nil = as declared
+	order [][2]int
 }
 
 func (t *bT) text() string {
@@ -160,17 +164,35 @@ func (c *bC) text(res string) string {
 	return s + " = " + res + ";"
 }
 
+func (d *bD) res() string {
+	if d.resText != "" {
+		return d.resText
+	}
+	return d.name
+}
+
 func (d *bD) text() string {
 	var lines []string
 	for i := range d.ctors {
-		lines = append(lines, d.ctors[i].text(d.name))
+		lines = append(lines, d.ctors[i].text(d.res()))
 	}
 	return strings.Join(lines, "\n")
 }
 
 func (s *tlbSchema) text() string {
 	var parts []string
+	if s.order != nil {
+		// constructors of different types interleaved (tlb/parser collects a type's constructors
+		// from the whole file; Go resolves the type names whatever the order)
+		for _, o := range s.order {
+			d := s.decls[o[0]]
+			parts = append(parts, d.ctors[o[1]].text(d.res()))
+		}
+	}
 	for _, d := range s.decls {
+		if s.order != nil && !d.msg {
+			continue
+		}
 		p := d.text()
 		if d.msg {
 			p = "// message body, generated alone as " + d.goName + " with skipMagic\n" + p
@@ -462,7 +484,7 @@ func (g *tlbGen) plain(depth int) *bT {
 			}
 			return &bT{k: "int", n: c09BigInts[g.r.Intn(3)]}
 		case k == 9 && depth < 2:
-			return &bT{k: "either", a: g.plain(depth + 1), b: g.plain(depth + 1)}
+			return g.either(depth)
 		case k == 10 && depth < 2:
 			v := g.plain(depth + 1)
 			if g.r.Chance(30) && g.fitsCell(v) {
@@ -764,7 +786,69 @@ func genTlbSchema(r *prng.R, size int) *tlbSchema {
 	for i := 0; i < nmsg; i++ {
 		g.addMsg()
 	}
+	if g.r.Chance(60) {
+		g.s.interleave(g.r)
+	}
 	return g.s
+}
+
+// interleave: a random merge of the constructor lines of all (non-message) declarations that
+// keeps the constructors of one type in their order — the order of the alternatives of a union
+// is the order of its constructors in the file.
+func (s *tlbSchema) interleave(r *prng.R) {
+	next := make([]int, len(s.decls))
+	var live []int
+	for i, d := range s.decls {
+		if !d.msg {
+			live = append(live, i)
+		}
+	}
+	s.order = [][2]int{}
+	for len(live) > 0 {
+		k := r.Intn(len(live))
+		i := live[k]
+		s.order = append(s.order, [2]int{i, next[i]})
+		next[i]++
+		if next[i] == len(s.decls[i].ctors) {
+			live = append(live[:k], live[k+1:]...)
+		}
+	}
+}
+
+// alias: another way of writing a type that tlb/parser maps to the same Go type
+func (g *tlbGen) alias(t *bT) *bT {
+	switch {
+	case t.k == "uint" && t.n <= 64:
+		return &bT{k: "nn", n: t.n}
+	case t.k == "nn":
+		return &bT{k: "uint", n: t.n}
+	case t.k == "coins":
+		return &bT{k: "coins", n: 1 - t.n}
+	case t.k == "addr":
+		return &bT{k: "addrint"}
+	case t.k == "addrint":
+		return &bT{k: "addr"}
+	}
+	return t
+}
+
+// either: the generator decides between tlb.Either[L,R] and tlb.EitherRef[T] by comparing the Go
+// names of the two parameters and looking for a ^ on the second: all four sides that have a
+// meaning are produced — different types; the same type twice without ^ (also written in two
+// ways); the same type with ^ on the second (also written in two ways).
+func (g *tlbGen) either(depth int) *bT {
+	a := g.plain(depth + 1)
+	switch g.r.Intn(5) {
+	case 0:
+		return &bT{k: "either", a: a, b: a}
+	case 1:
+		return &bT{k: "either", a: a, b: g.alias(a)}
+	case 2:
+		if g.fitsCell(a) {
+			return &bT{k: "either", a: a, b: &bT{k: "ref", a: g.alias(a)}}
+		}
+	}
+	return &bT{k: "either", a: a, b: g.plain(depth + 1)}
 }
 
 // genTlbExplore: a subset schema plus one declaration outside the subset; only observed.
@@ -807,6 +891,9 @@ func genTlbExplore(r *prng.R, size int) *tlbSchema {
 		{"optional-field-expression", "exp_a$1 flags:# v:flags.0?uint8 = ExpType;", nil},
 		{"limited-nat", "exp_a$1 v:(#<= 5) = ExpType;", nil},
 		{"bare-builtin-type-name", "exp_a$1 uint8 = ExpType;", nil},
+		{"either-ref-on-the-left", "exp_a$1 v:(Either ^uint8 uint8) = ExpType;", one(nf("v", &bT{k: "either", a: &bT{k: "ref", a: u(8)}, b: u(8)}))},
+		{"either-ref-on-both-sides", "exp_a$1 v:(Either ^uint8 ^uint8) = ExpType;", one(nf("v", &bT{k: "either", a: &bT{k: "ref", a: u(8)}, b: &bT{k: "ref", a: u(8)}}))},
+		{"hashmape-named-key-size", "exp_a$1 v:(HashmapE uint32 uint8) = ExpType;", nil},
 		{"hashmape-of-maybe", "exp_a$1 v:(HashmapE 8 (Maybe uint8)) = ExpType;", nil},
 	}
 	c := cases[r.Intn(len(cases))]
@@ -894,9 +981,138 @@ func genTlbForms() *tlbSchema {
 	s.decls = append(s.decls, &bD{name: "FormsB", ctors: []bC{b0, b1}})
 	s.decls = append(s.decls, &bD{name: "FormsC", ctors: []bC{{name: "fc", prefix: "#_", fields: []bF{nf("v", u(8)), un(&bT{k: "dict", n: 16, a: &bT{k: "ref", a: inner}})}}}})
 	s.decls = append(s.decls, &bD{name: "FormsD", ctors: []bC{{name: "fd", prefix: "$_", fields: []bF{un(&bT{k: "either", a: u(8), b: inner}), nf("w", &bT{k: "mayberef", a: inner})}}}})
+	// Either on every side of the generator's name/tag comparison, under Maybe, nested, as a dictionary value
+	e := func(x, y *bT) *bT { return &bT{k: "either", a: x, b: y} }
+	rf := func(x *bT) *bT { return &bT{k: "ref", a: x} }
+	nn8 := &bT{k: "nn", n: 8}
+	s.decls = append(s.decls, &bD{name: "FormsE", ctors: []bC{{name: "_", fields: []bF{
+		nf("e1", e(u(32), u(32))),
+		nf("e2", e(inner, inner)),
+		nf("e3", e(u(8), nn8)),
+		nf("e4", e(nn8, rf(u(8)))),
+		nf("e5", &bT{k: "maybe", a: e(u(16), u(16))}),
+		nf("e6", e(e(u(8), u(8)), e(u(8), u(8)))),
+		nf("e7", e(&bT{k: "coins"}, &bT{k: "coins", n: 1})),
+		nf("e8", e(inner, rf(inner)))}}}})
+	s.decls = append(s.decls, &bD{name: "FormsF", ctors: []bC{{name: "_", fields: []bF{
+		nf("e9", &bT{k: "mayberef", a: e(u(8), u(8))}),
+		nf("e10", &bT{k: "dict", n: 8, a: e(u(8), u(8))}),
+		nf("e11", e(u(8), u(16))),
+		nf("e12", e(e(u(8), rf(u(8))), e(u(8), rf(u(8))))),
+		nf("e13", &bT{k: "refanon", fields: []bF{nf("l", e(inner, inner)), un(e(u(8), u(8)))}})}}}})
+	// a numeric parameter in the result type: `= FormsP 5` is generated as FormsP5
+	pc := bC{name: "fp", fields: []bF{nf("v", u(8))}}
+	setTag(&pc, false, 1, 1)
+	s.decls = append(s.decls, &bD{name: "FormsP5", resText: "FormsP 5", ctors: []bC{pc}})
+	// the constructors of FormsB / FormsA stand apart in the file
+	s.order = [][2]int{{0, 0}, {2, 0}, {1, 0}, {3, 0}, {2, 1}, {4, 0}, {5, 0}, {6, 0}, {7, 0}}
 	// a message body (generated alone, skipMagic) with the dedust shape
 	m := bC{name: "formsMsg", fields: []bF{nf("query_id", u(64)), un(&bT{k: "refanon", fields: []bF{nf("x", &bT{k: "coins"}), nf("y", &bT{k: "addr"})}}), nf("p", &bT{k: "refanon", fields: []bF{nf("k", u(1))}})}}
 	setTag(&m, true, 32, 0x40e108d6)
 	s.decls = append(s.decls, &bD{name: "FormsMsg", msg: true, goName: "FormsMsgBody", ctors: []bC{m}})
 	return s
+}
+
+// ---------------------------------------------------------------- which alternatives does a value select
+
+// walkT records, driven by the schema, the alternatives a value selects at every position
+// (Maybe: absent / present, Either: left / right, union: constructor).  With v == nil it
+// records every alternative the declaration offers: the set a value stream has to cover.
+func (s *tlbSchema) walkT(t *bT, v *sx.V, path string, acc map[string]bool) {
+	arg := func(i int) *sx.V {
+		if v == nil || v.K != sx.KL || len(v.List) <= i {
+			return nil
+		}
+		return &v.List[i]
+	}
+	switch t.k {
+	case "maybe", "mayberef":
+		if v == nil {
+			acc[path+"?none"], acc[path+"?some"] = true, true
+			s.walkT(t.a, nil, path+"?some/", acc)
+			return
+		}
+		if len(v.List) < 2 {
+			acc[path+"?none"] = true
+			return
+		}
+		acc[path+"?some"] = true
+		s.walkT(t.a, arg(1), path+"?some/", acc)
+	case "either", "eitherref":
+		b := t.b
+		if t.k == "eitherref" {
+			b = t.a
+		}
+		if v == nil {
+			acc[path+"|L"], acc[path+"|R"] = true, true
+			s.walkT(t.a, nil, path+"|L/", acc)
+			s.walkT(b, nil, path+"|R/", acc)
+			return
+		}
+		if len(v.List) != 3 {
+			return
+		}
+		if v.List[1].Bool {
+			acc[path+"|R"] = true
+			s.walkT(b, arg(2), path+"|R/", acc)
+		} else {
+			acc[path+"|L"] = true
+			s.walkT(t.a, arg(2), path+"|L/", acc)
+		}
+	case "ref":
+		s.walkT(t.a, v, path, acc)
+	case "refanon", "anon":
+		s.walkFields(t.fields, v, 1, path, acc)
+	case "named":
+		if d := s.find(t.name); d != nil {
+			s.walkDecl(d, v, path, acc)
+		}
+	}
+}
+
+// fields of a ('struct v ...) value starting at list position from
+func (s *tlbSchema) walkFields(fs []bF, v *sx.V, from int, path string, acc map[string]bool) {
+	j := 0
+	for _, f := range fs {
+		if f.t == nil {
+			continue
+		}
+		var fv *sx.V
+		if v != nil {
+			if v.K != sx.KL || len(v.List) <= from+j {
+				return
+			}
+			fv = &v.List[from+j]
+		}
+		s.walkT(f.t, fv, fmt.Sprintf("%s.%d", path, j), acc)
+		j++
+	}
+}
+
+func (s *tlbSchema) walkDecl(d *bD, v *sx.V, path string, acc map[string]bool) {
+	if len(d.ctors) == 1 {
+		c := &d.ctors[0]
+		from := 1
+		if c.prefix != "" && c.prefix != "#_" && c.prefix != "$_" && !d.msg {
+			from = 2 // the Magic field
+		}
+		s.walkFields(c.fields, v, from, path, acc)
+		return
+	}
+	if v == nil {
+		for k := range d.ctors {
+			acc[fmt.Sprintf("%s#%d", path, k)] = true
+			s.walkFields(d.ctors[k].fields, nil, 1, fmt.Sprintf("%s#%d", path, k), acc)
+		}
+		return
+	}
+	if v.K != sx.KL || len(v.List) != 3 || v.List[1].K != sx.KN {
+		return
+	}
+	k := v.List[1].I()
+	if k < 0 || k >= len(d.ctors) {
+		return
+	}
+	acc[fmt.Sprintf("%s#%d", path, k)] = true
+	s.walkFields(d.ctors[k].fields, &v.List[2], 1, fmt.Sprintf("%s#%d", path, k), acc)
 }
